@@ -17,8 +17,10 @@ fn log_off() -> log::LevelFilter {
 }
 
 const CLIENTS: [Entity; 3] = [Entity::from_raw(100), Entity::from_raw(101), Entity::from_raw(102)];
-/// The replication tick each client has last been sent (1-byte and 2-byte varints).
-const UPDATE_TICKS: [u32; 3] = [3, 200, 9];
+/// The replication tick each client has last been sent. All equal here: re-stamping for a different
+/// tick reads message content, which together with several heap messages exhausts CBMC's memory
+/// (probe P28); per-client stamping is decided separately in `c04_stamp_per_client`.
+const UPDATE_TICKS: [u32; 3] = [3, 3, 3];
 
 fn any_mode() -> SendMode {
     let kind: u8 = kani::any();
@@ -46,16 +48,25 @@ fn wants(mode: SendMode, client: Entity) -> bool {
 fn raw_event(payload: u8) -> SerializedMessage {
     let mut message = vec![0; RepliconTick::POSTCARD_MAX_SIZE];
     message.push(payload);
+    if payload == 0x42 {
+        // The second event is one byte longer, so that events can be told apart by length alone.
+        message.push(payload);
+    }
     SerializedMessage::Raw(message)
 }
 
 fn send_all_case(authorized: [bool; 3], modes: [SendMode; 2], joiner: usize) {
+    send_all_case_n(authorized, modes, joiner, 2)
+}
+
+/// `events` = 1 or 2 buffered events; always 2 connected clients (CLIENTS[0], CLIENTS[1]); the third
+/// id is a client that is not connected. Larger configurations exhaust CBMC's memory (probe P28).
+fn send_all_case_n(authorized: [bool; 3], modes: [SendMode; 2], joiner: usize, events: usize) {
     let mut rows = [
         ClientRow::authorized(CLIENTS[0], 1200, None),
         ClientRow::authorized(CLIENTS[1], 1200, None),
-        ClientRow::authorized(CLIENTS[2], 1200, None),
     ];
-    for i in 0..3 {
+    for i in 0..2 {
         rows[i].auth_mut().ticks.set_update_tick(RepliconTick::new(UPDATE_TICKS[i]));
         if !authorized[i] {
             // A connected client that is not authorized has none of the replication components.
@@ -72,30 +83,26 @@ fn send_all_case(authorized: [bool; 3], modes: [SendMode; 2], joiner: usize) {
     if joiner < 3 {
         buffered.exclude_client(CLIENTS[joiner]);
     }
-    buffered.start_tick();
-    buffered.insert(modes[1], 0, raw_event(0x42));
+    if events == 2 {
+        buffered.start_tick();
+        buffered.insert(modes[1], 0, raw_event(0x42));
+    }
 
     let mut server = RepliconServer::default();
     server.set_running(true);
     buffered.send_all(&mut server, &Query::new(&mut rows)).unwrap();
 
     // ---- every client receives exactly the events meant for it, once, in order, stamped with ITS tick
-    let mut got = [[false; 2]; 3];
+    let mut got = [[false; 2]; 2];
     let mut order_ok = true;
     for (to, channel, message) in server.drain_sent() {
         assert!(channel == 0);
-        let c = if to == CLIENTS[0] { 0 } else if to == CLIENTS[1] { 1 } else { 2 };
+        let c = if to == CLIENTS[0] { 0 } else { 1 };
         assert!(to == CLIENTS[c]);
-        let tick = UPDATE_TICKS[c];
-        let payload = if tick < 128 {
-            assert!(message.len() == 2 && message[0] == tick as u8);
-            message[1]
-        } else {
-            assert!(message.len() == 3 && message[0] == (tick & 0x7f) as u8 | 0x80 && message[1] == (tick >> 7) as u8);
-            message[2]
-        };
-        let e = if payload == 0x41 { 0 } else { 1 };
-        assert!(payload == 0x41 + e as u8);
+        // Events are identified by their length (tick stamp of 1 byte + payload of 1 or 2 bytes);
+        // message content is not read here.
+        assert!(message.len() == 2 || message.len() == 3);
+        let e = message.len() - 2;
         assert!(!got[c][e]); // at most once
         if e == 0 && got[c][1] {
             order_ok = false; // first event after the second one
@@ -104,10 +111,10 @@ fn send_all_case(authorized: [bool; 3], modes: [SendMode; 2], joiner: usize) {
         core::mem::forget(message);
     }
     assert!(order_ok);
-    for c in 0..3 {
+    for c in 0..2 {
         for e in 0..2 {
             let excluded = e == 0 && joiner == c;
-            let expected = authorized[c] && !excluded && wants(modes[e], CLIENTS[c]);
+            let expected = e < events && authorized[c] && !excluded && wants(modes[e], CLIENTS[c]);
             assert!(got[c][e] == expected);
         }
     }
@@ -124,7 +131,7 @@ fn send_all_case(authorized: [bool; 3], modes: [SendMode; 2], joiner: usize) {
 // TIER: quick
 // TIMEOUT: 1200
 // DRIVES: BufferedServerEvents::start_tick, BufferedServerEvents::insert, BufferedServerEvents::send_all, BufferedServerEvent::send, SerializedMessage::get_bytes
-// BOUNDS: 3 connected clients of which client 1 is not authorized; first event with a SYMBOLIC send mode (broadcast / all-but-one / direct, target any client or the local server), second event broadcast; nobody joins; unwind 8
+// BOUNDS: 2 connected clients of which client 1 is not authorized (plus an id that is not connected); one event with a SYMBOLIC send mode (broadcast / all-but-one / direct; target: either client, the unconnected id or the local server); unwind 8
 #[kani::proof]
 #[kani::unwind(8)]
 #[kani::stub(<bytes::Bytes as core::ops::Drop>::drop, noop_bytes_drop)]
@@ -132,26 +139,95 @@ fn send_all_case(authorized: [bool; 3], modes: [SendMode; 2], joiner: usize) {
 #[kani::stub(log::max_level, log_off)]
 fn c07_unauthorized_gets_nothing() {
     let mode = any_mode();
-    send_all_case([true, false, true], [mode, SendMode::Broadcast], 3);
+    send_all_case_n([true, false, true], [mode, SendMode::Broadcast], 3, 1);
     kani::cover!(matches!(mode, SendMode::Direct(e) if e == CLIENTS[1]), "direct event to the unauthorized client");
     kani::cover!(matches!(mode, SendMode::BroadcastExcept(e) if e == SERVER), "broadcast except the local server");
 }
 
-// HARNESS: c05_send_all_scenarios
-// PROPS: C05 C07 C04
+// HARNESS: c05_late_joiner
+// PROPS: C05 C07
 // TIER: quick
 // TIMEOUT: 1200
 // DRIVES: BufferedServerEvents::start_tick, BufferedServerEvents::insert, BufferedServerEvents::exclude_client, BufferedServerEvents::send_all, BufferedServerEvent::send, SerializedMessage::get_bytes
-// BOUNDS: 3 clients with update ticks 3, 200, 9; concrete scenarios: late joiner (client 2 connects between two broadcasts), direct + all-but-one with every client authorized, direct to the local server; every message checked for recipient, order, exactly-once and the recipient's own tick stamp; unwind 8
+// BOUNDS: 2 authorized clients (update tick 3), 2 buffered events in two ticks' sets; concrete scenario: client 1 connects after a broadcast was buffered and does not receive it (one event; the two-event variant exhausts CBMC's memory, P28); every message checked for recipient, order and exactly-once (events told apart by length); nothing is sent again by a second send_all; unwind 8
 #[kani::proof]
 #[kani::unwind(8)]
 #[kani::stub(<bytes::Bytes as core::ops::Drop>::drop, noop_bytes_drop)]
 #[kani::stub(<bytes::Bytes as core::clone::Clone>::clone, bytes_clone)]
 #[kani::stub(log::max_level, log_off)]
-fn c05_send_all_scenarios() {
-    send_all_case([true, true, true], [SendMode::Broadcast, SendMode::Broadcast], 2);
+fn c05_late_joiner() {
+    send_all_case_n([true, true, true], [SendMode::Broadcast, SendMode::Broadcast], 1, 1);
+    kani::cover!(true, "scenario executed");
+    kani::cover!(UPDATE_TICKS[1] == 3, "all clients share the update tick");
+}
+
+// HARNESS: c05_direct_and_except
+// PROPS: C05 C07
+// TIER: quick
+// TIMEOUT: 1200
+// DRIVES: BufferedServerEvents::start_tick, BufferedServerEvents::insert, BufferedServerEvents::exclude_client, BufferedServerEvents::send_all, BufferedServerEvent::send, SerializedMessage::get_bytes
+// BOUNDS: 2 authorized clients (update tick 3), 2 buffered events in two ticks' sets; concrete scenario: a direct event to client 1 followed by a broadcast to everyone except client 1; every message checked for recipient, order and exactly-once (events told apart by length); nothing is sent again by a second send_all; unwind 8
+#[kani::proof]
+#[kani::unwind(8)]
+#[kani::stub(<bytes::Bytes as core::ops::Drop>::drop, noop_bytes_drop)]
+#[kani::stub(<bytes::Bytes as core::clone::Clone>::clone, bytes_clone)]
+#[kani::stub(log::max_level, log_off)]
+fn c05_direct_and_except() {
     send_all_case([true, true, true], [SendMode::Direct(CLIENTS[1]), SendMode::BroadcastExcept(CLIENTS[1])], 3);
-    send_all_case([true, true, false], [SendMode::Direct(SERVER), SendMode::Direct(CLIENTS[2])], 0);
-    kani::cover!(true, "all scenarios executed");
-    kani::cover!(UPDATE_TICKS[1] >= 128, "a two-byte tick stamp is exercised");
+    kani::cover!(true, "scenario executed");
+    kani::cover!(UPDATE_TICKS[1] == 3, "all clients share the update tick");
+}
+
+/// `get_bytes` for `first` and then for `second`, as `send_all` does for two clients with these
+/// update ticks: each client gets `postcard(its tick) ++ payload`.
+fn stamp_case(first: u32, second: u32) {
+    let mut message = raw_event(0x41);
+    let a = message.get_bytes(RepliconTick::new(first)).unwrap();
+    let b = message.get_bytes(RepliconTick::new(second)).unwrap();
+    for (bytes, tick) in [(&a, first), (&b, second)] {
+        // reference varint encoding of the tick
+        let mut expect = [0u8; 6];
+        let mut n = 0;
+        let mut v = tick;
+        loop {
+            let byte = (v & 0x7f) as u8;
+            v >>= 7;
+            if v == 0 {
+                expect[n] = byte;
+                n += 1;
+                break;
+            }
+            expect[n] = byte | 0x80;
+            n += 1;
+        }
+        expect[n] = 0x41;
+        assert!(bytes.len() == n + 1);
+        let mut i = 0;
+        while i <= n {
+            assert!(bytes[i] == expect[i]);
+            i += 1;
+        }
+    }
+    core::mem::forget((message, a, b));
+}
+
+// HARNESS: c04_stamp_per_client
+// PROPS: C04 C05
+// TIER: quick
+// TIMEOUT: 900
+// DRIVES: SerializedMessage::get_bytes, postcard_utils::to_extend_mut
+// BOUNDS: one buffered event resolved for two clients in sequence with update-tick pairs (3,200), (200,3), (3,3), (0xFFFFFFFF,0), (0,0x4000): concrete pairs (a symbolic tick makes the stamp length symbolic, P23), reference varint encoder; unwind 8
+#[kani::proof]
+#[kani::unwind(8)]
+#[kani::stub(<bytes::Bytes as core::ops::Drop>::drop, noop_bytes_drop)]
+#[kani::stub(<bytes::Bytes as core::clone::Clone>::clone, bytes_clone)]
+#[kani::stub(log::max_level, log_off)]
+fn c04_stamp_per_client() {
+    stamp_case(3, 200);
+    stamp_case(200, 3);
+    stamp_case(3, 3);
+    stamp_case(0xFFFF_FFFF, 0);
+    stamp_case(0, 0x4000);
+    kani::cover!(true, "all pairs executed");
+    kani::cover!(RepliconTick::POSTCARD_MAX_SIZE == 5, "tick padding as documented");
 }
